@@ -47,6 +47,10 @@ for b2b in (False, True):
 for kind, nm, ns, register, tier in (("crossbar", 2, 2, False, "quick"), ("crossbar", 2, 1, True, "quick"), ("shared", 2, 2, False, "quick"),
                                      ("arbiter", 2, 1, False, "quick"), ("decoder", 1, 2, False, "quick"), ("crossbar", 2, 2, True, "thorough")):
     VARIANTS[f"{kind}({nm}x{ns},register={register})+stb_pauses"] = (tier, dict(kind=kind, nm=nm, ns=ns, register=register, back_to_back=True, timeout=None, pauses=True))
+# masters of different address widths, the narrower one first: the shared bus must carry the widest address
+VARIANTS["shared(2x3,register=False,adr widths 5/6)"] = ("quick", dict(kind="shared", nm=2, ns=3, register=False, back_to_back=False, timeout=None, adr_widths=(5, 6)))
+VARIANTS["shared(2x3,register=False,adr widths 6/5)"] = ("thorough", dict(kind="shared", nm=2, ns=3, register=False, back_to_back=False, timeout=None, adr_widths=(6, 5)))
+VARIANTS["crossbar(2x3,register=False,adr widths 5/6)"] = ("quick", dict(kind="crossbar", nm=2, ns=3, register=False, back_to_back=False, timeout=None, adr_widths=(5, 6)))
 VARIANTS["shared(2x2,register=False,timeout=2)"] = ("quick", dict(kind="shared", nm=2, ns=2, register=False, back_to_back=False, timeout=2, maxlat=3))
 VARIANTS["shared(2x1,register=False,timeout=3)+back_to_back"] = ("thorough", dict(kind="shared", nm=2, ns=1, register=False, back_to_back=True, timeout=3, maxlat=4))
 
